@@ -38,7 +38,10 @@ RULE = ("life: calls are made through hass.services.async_call or by a script (s
         "script / overlapping), names (three services incl. foreign domains + trigger + yaml doc strings on one function); "
         "five probes per subsystem with names that differ only in letter case (two functions; a redefinition; "
         "another context; one function naming both spellings - oracle only) and two with spellings of pyscript's built-in "
-        "service names (alone: model and oracle; among other names / in a foreign domain: model only).  out: entry point x subsets of {context, blocking, "
+        "service names (alone: model and oracle; among other names / in a foreign domain: model only); family refused-later-name "
+        "(both tiers and the failing-input search): ONE @service decorator with two names (legacy; stacked decorators in the new "
+        "subsystem) whose LAST name another context owns, then del / redefinition / file removal / file reload of that function, "
+        "then the other context declares the freed name - judged by the declaration oracle; probe multi-name (new subsystem, oracle only).  out: entry point x subsets of {context, blocking, "
         "return_response, limit, plain} with right-typed, wrong-typed and falsy-but-wrong-typed values (0, '', None, {}, 0.0) "
         "x target supports_response.  "
         "Non-trivial = at least one registration; distinct by payload.")
@@ -498,6 +501,41 @@ def hazard_cases(rng, legacy):
     return [{"kind": "life", "legacy": legacy, "ops": ops, "family": name} for name, ops in fam]
 
 
+def refused_later_cases(rng, legacy):
+    """ONE @service decorator with two names, the LAST of which another context owns: the first name is registered, the
+    refusal aborts the function's decorators.  The first name is declared by a live function; once that function is
+    deleted, redefined without it, or its file is removed / reloaded, the name must be free again (not registered, count 0,
+    another context may declare it).  Judged by the declaration oracle alone (works with the model withheld)."""
+    if not legacy:
+        # the new subsystem accepts one name per decorator (see probe multi-name): stacked decorators, refused name last
+        multi = {}
+    else:
+        multi = {"multi": True}
+    out = []
+    for variant in ("del", "redefine", "unload", "reload"):
+        s1, s2, s3 = rng.sample(SVCS, 3)
+        r = rng.choice(RESPS)
+        ops = [{"k": "load", "ctx": "a", "defs": [{"var": "f", "gen": 1, "decl": [[s1, rng.choice(RESPS)]]}]},
+               {"k": "load", "ctx": "b", "defs": [{"var": "g", "gen": 2, "decl": [[s2, r], [s1, r]], **multi}]}]
+        ops += calls_for([s2, s1], rng)
+        if variant == "del":
+            ops.append({"k": "rundel", "ctx": "b", "fn": "opA", "var": "g"})
+        elif variant == "redefine":
+            ops.append({"k": "rundef", "ctx": "b", "fn": "opA", "var": "g", "gen": 3, "decl": [[s3, r]]})
+        elif variant == "unload":
+            ops.append({"k": "unload", "ctx": "b"})
+        else:
+            ops.append({"k": "load", "ctx": "b", "defs": [{"var": "h", "gen": 3, "decl": [[s3, r]]}]})
+        ops += calls_for([s2], rng)
+        # the freed name is taken by the other context
+        ops.append({"k": "rundef", "ctx": "a", "fn": "opB", "var": "h", "gen": 4, "decl": [[s2, rng.choice(RESPS)]]})
+        ops += calls_for([s2, s1], rng)
+        ops.append({"k": "unload", "ctx": "a"})
+        ops += calls_for([s2], rng)
+        out.append({"kind": "life", "legacy": legacy, "ops": ops, "family": "refused-later-name:" + variant})
+    return out
+
+
 def probe_cases(legacy):
     """names that differ only in case: Home Assistant's registry lower-cases them, so they are ONE service – and so they
     are for the model since the repair of C12-F9 (the key of the count table is the lower-cased name)"""
@@ -521,6 +559,12 @@ def probe_cases(legacy):
     out.append({"kind": "life", "legacy": legacy, "probe": "case-variant-twice", "svcs": ["pyscript.case1"], "oracle_only": True, "ops": [
         {"k": "load", "ctx": "a", "defs": [{"var": "f", "gen": 1, "decl": [["pyscript.Case1", "none"], ["pyscript.case1", "none"]]}]}]
         + calls + [{"k": "rundel", "ctx": "a", "fn": "opA", "var": "f"}] + calls})
+    if not legacy:
+        # ONE decorator with two names ("Multiple arguments ... can be used to register multiple names", reference.rst):
+        # the new subsystem's argument schema accepts at most one (C12-F12-new, open) - oracle only
+        out.append({"kind": "life", "legacy": legacy, "probe": "multi-name", "svcs": ["pyscript.s1", "pyscript.s2"], "oracle_only": True, "ops": [
+            {"k": "load", "ctx": "a", "defs": [{"var": "f", "gen": 1, "decl": [["pyscript.s1", "none"], ["pyscript.s2", "none"]], "multi": True}]}]
+            + [{"k": "call", "svc": "pyscript.s2", "rr": False, "data": {"x": 1}}]})
     # a spelling variant of a BUILT-IN service name (pyscript.reload): `@service` must refuse it like the name itself
     out.append({"kind": "life", "legacy": legacy, "probe": "builtin-case", "svcs": ["pyscript.reload"], "ops": [
         {"k": "load", "ctx": "a", "defs": [{"var": "f", "gen": 1, "decl": [["pyscript.Reload", "none"]]}]},
@@ -574,6 +618,8 @@ def gen_cases(rng, tier, search):
             for _ in range(2 if tier == "quick" else 12):
                 payloads += hazard_cases(rng, legacy)
             payloads += probe_cases(legacy)
+    for legacy in (True, False):
+        payloads += refused_later_cases(rng, legacy)        # also part of the failing-input search
     for i in range(n):
         payloads.append(clean_case(rng, i))
     payloads += out_cases(rng, 72 if tier == "quick" else 600)
@@ -600,6 +646,13 @@ def func_src(var, gen, decl, indent, df=None):
     df = df or {}
     sg = SIGS[df.get("sig", 0)]
     lines = []
+    if df.get("multi"):
+        # ONE decorator naming all services (documented: "multiple arguments ... register multiple names"); the
+        # supports_response keyword is the decorator's, so all names share it
+        r = decl[0][1]
+        names = ", ".join(repr(s) for s, _ in decl)
+        lines.append(f"{pad}@service({names}, supports_response={r!r})" if r != "none" else f"{pad}@service({names})")
+        decl = []
     for s, r in decl:
         lines.append(f"{pad}@service({s!r}, supports_response={r!r})" if r != "none" else f"{pad}@service({s!r})")
     if df.get("trig"):
